@@ -27,6 +27,30 @@ pub fn verif_dir() -> std::path::PathBuf {
 // -------------------------------------------------------------------------------------------
 // worker side
 
+const WARMUP_ENV: &str = "RSSL_SIM_WARMUP";
+static WORKERS_SPAWNED: std::sync::atomic::AtomicU64 = std::sync::atomic::AtomicU64::new(0);
+/// While a finding is confirmed, minimised or replayed, every child starts with this history
+static FORCE_WARMUP: std::sync::atomic::AtomicU64 = std::sync::atomic::AtomicU64::new(u64::MAX);
+
+/// The first compile of a worker process: a minimal graphics pipeline for one of the targets
+/// (or none). Its result is not judged - on a tree that holds C07/C08 it cannot matter.
+fn warm_up() {
+    let k: u64 = std::env::var(WARMUP_ENV).ok().and_then(|v| v.parse().ok()).unwrap_or(3);
+    let target = match k % 4 {
+        0 => crate::exec::Target::Dx,
+        1 => crate::exec::Target::Vk,
+        2 => crate::exec::Target::Msl,
+        _ => return,
+    };
+    let fs = crate::plan::snippet_fs(
+        "float4 WarmVs(uint id : SV_VertexID) : SV_Position { return float4(id, 0, 0, 1); }\nfloat4 WarmPs() : SV_Target { return float4(1, 0, 0, 1); }\nPipeline WarmP { VertexShader = WarmVs; PixelShader = WarmPs; }\n",
+    );
+    let mut t = crate::exec::TaskSpec::compile(0, "test.rssl", target);
+    t.subject = false;
+    let ex = crate::exec::ExecSpec::single((3, 5), crate::plan::STACK_MAIN, t);
+    let _ = crate::exec::run_exec(&ex, std::slice::from_ref(&fs));
+}
+
 pub fn worker_main(check: &str, tier: Tier, seed: u64) {
     // S9: the worker lives in a private scratch directory (removed at exit)
     let scratch = crate::clock::enter_scratch_directory();
@@ -37,6 +61,7 @@ pub fn worker_main(check: &str, tier: Tier, seed: u64) {
         std::process::exit(2);
     }
     let ctx = Ctx::new(check, tier, seed);
+    warm_up();
     println!("READY {}", ctx.units());
     let stdin = std::io::stdin();
     let mut line = String::new();
@@ -139,6 +164,16 @@ impl Worker {
             .args(["worker", check, tier.name(), &seed.to_string()])
             .env(crate::w2::KINDS_ENV, crate::w2::kinds_env_value())
             .env(crate::clock::SCRATCH_ENV, crate::clock::campaign_scratch_parent())
+            // what a process compiled first is history too: workers take turns in starting with
+            // a compile for DirectX, Vulkan, Metal, or nothing
+            .env(
+                WARMUP_ENV,
+                match FORCE_WARMUP.load(Ordering::Relaxed) {
+                    u64::MAX => WORKERS_SPAWNED.fetch_add(1, Ordering::Relaxed) % 4,
+                    k => k,
+                }
+                .to_string(),
+            )
             .stdin(Stdio::piped())
             .stdout(Stdio::piped())
             .stderr(Stdio::null())
@@ -551,6 +586,7 @@ fn write_replay(
     f: &Finding,
     minimised: bool,
     min_runs: u32,
+    process_history: Option<u64>,
 ) -> std::path::PathBuf {
     let dir = verif_dir().join("replays");
     let _ = std::fs::create_dir_all(&dir);
@@ -565,6 +601,8 @@ fn write_replay(
         .with("violation", f.to_json())
         .with("minimised", Json::Bool(minimised))
         .with("minimiser_runs", Json::u(min_runs as u64))
+        // what the replaying process compiles first: 0 DirectX, 1 Vulkan, 2 Metal, 3 nothing
+        .with("process_history", Json::u(process_history.unwrap_or(3)))
         .with("case", case.to_json());
     let _ = std::fs::write(&path, j.pretty());
     path
@@ -595,6 +633,10 @@ pub fn replay(path: &str) -> i32 {
     let want = Finding::from_json(j.get("violation").unwrap_or(&Json::Null));
     let tier = crate::parse_tier(&j.gs("tier"));
     let args = (j.gs("check"), tier, j.gu("seed"));
+    FORCE_WARMUP.store(
+        if j.get("process_history").is_some() { j.gu("process_history") } else { 3 },
+        Ordering::Relaxed,
+    );
     let mut w = None;
     let got = findings_of((&args.0, args.1, args.2), &mut w, &case);
     for f in &got {
@@ -976,12 +1018,26 @@ pub fn check(check: &str, tier: Tier) -> i32 {
                 continue;
             }
         };
-        // Confirm in a fresh child before anything is printed as a violation
-        let mut w = None;
-        let confirmed = class == "nondeterministic-across-processes"
-            || same_violation(&findings_of(ctx_args, &mut w, &case), &f);
-        drop(w);
+        // Confirm in a fresh child before anything is printed as a violation. A finding may
+        // depend on what the process compiled first (see warm_up): the four histories are tried
+        // in turn, and the one that reproduces it is kept for the minimiser and the replay file.
+        let mut confirmed = class == "nondeterministic-across-processes";
+        let mut history: Option<u64> = None;
         if !confirmed {
+            for k in [3u64, 0, 1, 2] {
+                FORCE_WARMUP.store(k, Ordering::Relaxed);
+                let mut w = None;
+                let ok = same_violation(&findings_of(ctx_args, &mut w, &case), &f);
+                drop(w);
+                if ok {
+                    confirmed = true;
+                    history = Some(k);
+                    break;
+                }
+            }
+        }
+        if !confirmed {
+            FORCE_WARMUP.store(u64::MAX, Ordering::Relaxed);
             agg.harness_errors.push(format!(
                 "unit {unit}: {property} {class} [{fingerprint}] did not reproduce in a fresh child: {}",
                 f.detail
@@ -993,7 +1049,8 @@ pub fn check(check: &str, tier: Tier) -> i32 {
         } else {
             minimise(ctx_args, &case, &f)
         };
-        let path = write_replay(&ctx, unit, &min_case, &f, complete, runs);
+        FORCE_WARMUP.store(u64::MAX, Ordering::Relaxed);
+        let path = write_replay(&ctx, unit, &min_case, &f, complete, runs, history);
         println!(
             "violation: {property} {class} [{fingerprint}] x{count}: {}",
             f.detail
